@@ -192,7 +192,7 @@ Theorem decode_encode : forall pver mmp m rest,
   dec_payload pver mmp (kind_of m) (enc_payload pver m ++ rest) = Ok (m, rest).
 Proof.
   intros pver mmp m rest Hmmp Hwf Hrest.
-  destruct m as [v| | |l|pv locs stop|pv locs stop|l|l|l|l|n|n|cmd code reason hash| |fee| |nf mrl|k];
+  destruct m as [v| | |l|pv locs stop|pv locs stop|l|l|l|l|n|n|cmd code reason hash| |fee| |nf mrl|d| |f h t fl|k];
     cbn [wf_msg] in Hwf; cbn [kind_of enc_check enc_payload dec_payload]; try discriminate Hwf.
   - (* version *)
     pose proof Hwf as Hwf'. unfold wf_version in Hwf'.
@@ -295,6 +295,31 @@ Proof.
     rewrite signed64_roundtrip by exact Hfee. reflexivity.
   - (* mempool *)
     apply leb_true in Hwf. destruct (N.ltb_spec pver BIP0035Version); [lia|]. split; reflexivity.
+  - (* filteradd *)
+    apply andb_prop in Hwf. destruct Hwf as [Hpv Hd]. apply leb_true in Hpv. apply leb_true in Hd.
+    destruct (N.ltb_spec pver BIP0037Version); [lia|].
+    destruct (N.ltb_spec MaxFilterAddDataSize (len d)); [lia|]. split; [reflexivity|].
+    unfold len in Hd.
+    rewrite dec_enc_varbytes by (try exact Hd; unfold MaxFilterAddDataSize in Hd; change (2 ^ 64) with 18446744073709551616; lia).
+    reflexivity.
+  - (* filterclear *)
+    apply leb_true in Hwf. destruct (N.ltb_spec pver BIP0037Version); [lia|]. split; reflexivity.
+  - (* filterload *)
+    apply andb_prop in Hwf. destruct Hwf as [Hwf Hfl].
+    apply andb_prop in Hwf. destruct Hwf as [Hwf Ht].
+    apply andb_prop in Hwf. destruct Hwf as [Hwf Hh].
+    apply andb_prop in Hwf. destruct Hwf as [Hpv Hf].
+    apply leb_true in Hpv. apply leb_true in Hf. apply leb_true in Hh. apply fits_lt in Ht. apply fits_lt in Hfl.
+    destruct (N.ltb_spec pver BIP0037Version); [lia|].
+    destruct (N.ltb_spec MaxFilterLoadFilterSize (len f)); [lia|].
+    destruct (N.ltb_spec MaxFilterLoadHashFuncs h); [lia|]. split; [reflexivity|].
+    unfold dec_filterload, len in *. rewrite <- !app_assoc.
+    rewrite dec_enc_varbytes by (try exact Hf; unfold MaxFilterLoadFilterSize in Hf; change (2 ^ 64) with 18446744073709551616; lia).
+    cbn [bind].
+    rewrite read_le_enc by (rewrite pow8_4; unfold MaxFilterLoadHashFuncs in Hh; lia). cbn [bind].
+    rewrite read_le_enc by (rewrite pow8_4; exact Ht). cbn [bind].
+    rewrite read_le_enc by (rewrite pow8_1'; exact Hfl). cbn [bind].
+    destruct (N.ltb_spec MaxFilterLoadHashFuncs h); [lia|]. reflexivity.
 Qed.
 
 (* "re-encoding a decoded message reproduces those bytes" *)
